@@ -44,84 +44,26 @@ def check_key_runtime(cx, chk):
 
 
 def check_wrappers(cx, chk):
-    ws = memo.cached_wrappers(cx)
+    """Obligations of every cached wrapper, read off its semantic summary (wrapsem.py)."""
+    from . import wrapsem
+    ws = wrapsem.cached(cx)
     n = 0
     for w in ws:
-        tag = "%s/%s" % (w.inst.name, w.rule)
-        if not w.ok:
-            for p in w.problems:
-                chk.violation("C05.shape", "%s %s" % (tag, p), "cached wrapper not recognised: %s" % p)
-            continue
-        n += 1
-        b = w.body
-        ok, why = w.key_is_entry_state()
-        if ok and last(w.key[1]) != "cache_key":
-            ok, why = False, "key function is %s, not the runtime cache_key" % short(w.key[1])
-        if not ok:
-            chk.violation("C05.key", tag, why, cx.site(b, w.get_bb))
-        else:
-            chk.ok("C05.key", tag, {"wrapper": tag, "key": mir.show(w.key)})
-        for (i, t) in w.inserts:
-            k = strip(b.expr_op(t["args"][1]))
-            if k != w.key:
-                chk.violation("C05.key", tag + " insert-key", "insert uses a different key than the lookup: %s vs %s"
-                              % (mir.show(k), mir.show(w.key)), cx.site(b, i))
-            else:
-                chk.ok("C05.key", tag + " insert@bb%d" % i)
-        for (i, t) in w.other_cache_calls:
-            chk.violation("C05.own", "%s call=%s" % (tag, short(t["func"]["path"])),
-                          "cache field passed to %s" % short(t["func"]["path"]), cx.site(b, i))
-        # hit: returned value = clone(stored)
-        hit_blocks = b.reachable_from(w.hit) - b.reachable_from(w.miss)
-        rv = ret_value_on(b, hit_blocks)
-        get_dest = norm(b.expr_local(w.gets[0][1]["dest"]["l"]))
-        good = False
-        for (bb, e) in rv:
-            if is_call(e, "clone") and len(e[2]) == 1:
-                src = e[2][0]
-                if src[0] == "field" and src[2] == "0" and src[1][0] == "downcast" and src[1][2] == "Some" and src[1][1] == get_dest:
-                    good = True
-        if good and len(rv) == 1:
-            chk.ok("C05.value", tag + " hit", {"wrapper": tag, "hit_returns": mir.show(rv[0][1])})
-        else:
-            chk.violation("C05.value", tag + " hit", "cache hit does not return a clone of the stored result: %s"
-                          % [mir.show(e) for _, e in rv], cx.site(b, w.hit))
-        # miss (plain memo): inserted value is clone(&R), returned value is R
-        if not w.leftrec:
-            miss_blocks = b.reachable_from(w.miss) - b.reachable_from(w.hit)
-            for (i, t) in w.inserts:
-                val = norm(b.expr_op(t["args"][2]))
-                # the returned value on paths through this insert
-                after = b.reachable_from(t["target"]) if t["target"] is not None else set()
-                rets = ret_value_on(b, after & miss_blocks)
-                # operand-level comparison: insert(clone(&X)) ; _0 = move X  (same local X)
-                vop = t["args"][2]
-                okv = False
-                src_local = None
-                if is_call(val, "clone") and vop["k"] in ("move", "copy"):
-                    cl = b.single_def(vop["place"]["l"])
-                    if cl and cl[2] == "call":
-                        a0 = cl[3]["args"][0]
-                        # &X  -> find X
-                        rl = a0["place"]["l"] if a0["k"] in ("move", "copy") else None
-                        rd = b.single_def(rl) if rl is not None else None
-                        if rd and rd[2] == "rv" and rd[3]["k"] == "ref" and not rd[3]["place"]["p"]:
-                            src_local = rd[3]["place"]["l"]
-                if src_local is not None:
-                    for d in b.defs.get(0, []):
-                        if d[0] in after and d[2] == "rv" and d[3]["k"] == "use" and d[3]["op"]["k"] in ("move", "copy") \
-                                and d[3]["op"]["place"] == {"l": src_local, "p": []}:
-                            okv = True
-                if okv:
-                    chk.ok("C05.value", tag + " miss", {"wrapper": tag, "inserted": "clone(&_%d)" % src_local, "returned": "_%d" % src_local})
-                else:
-                    chk.violation("C05.value", tag + " miss", "the value inserted on a miss is not a clone of the value returned: "
-                                  "inserted %s" % mir.show(val), cx.site(b, i))
+        tag = w.tag
+        mine = [v for v in w.viol if v[0] in ("shape", "key", "own", "value")]
+        if w.ok:
+            n += 1
+        for (rid, detail, msg, site) in mine:
+            chk.violation("C05.%s" % rid, ("%s %s" % (tag, detail)).strip(), msg, site)
+        if w.ok:
+            for rid in ("key", "value"):
+                if not any(v[0] == rid for v in mine):
+                    chk.ok("C05.%s" % rid, tag + (" hit+miss" if rid == "value" else ""), {"wrapper": tag, "paths": len(w.leaves)})
     chk.floor("C05.key", "cached wrappers", n, 4)
-    # own: no function other than the wrapper touches the field
+    # own: no function outside the rule's own function (and what is nested in it) touches the field
     for inst in cx.instances():
         fields = memo.cache_fields(inst)
-        owners = {w.field: w.body.path for w in ws if w.inst is inst and w.ok}
+        owners = {w.field: w.path for w in ws if w.inst is inst and w.ok}
         for p, f in inst.fns.items():
             if "mir" not in f:
                 continue
@@ -135,7 +77,8 @@ def check_wrappers(cx, chk):
                     if pl and any(pe["k"] == "field" and pe["name"] == "cache" and (pe.get("owner") or "").endswith("ParseGlobal") for pe in pl["p"]):
                         fl = [pe["name"] for pe in pl["p"] if pe["k"] == "field"]
                         fld = fl[fl.index("cache") + 1] if fl.index("cache") + 1 < len(fl) else None
-                        if fld is None or owners.get(fld) != p:
+                        own = owners.get(fld)
+                        if fld is None or own is None or not (p == own or p.startswith(own + "::")):
                             chk.violation("C05.own", "%s %s touches cache.%s" % (inst.name, short(p), fld),
                                           "the cache (field %s) is accessed outside that rule's wrapper" % fld, cx.site(body, i))
         if fields:
